@@ -35,7 +35,7 @@ fn packets(c: &WriteCase, mode: &Mode) -> Vec<Packet> {
 }
 
 fn run_blocking_writes(mode: &Mode, pkts: &[Packet], policy: &[WriteStep]) -> Result<(Vec<u8>, Vec<String>, Vec<Event>), String> {
-    let t = Transport::new(vec![], policy.to_vec());
+    let t = Transport::new(vec![], policy.to_vec()).vectored(policy.len() % 2 == 1);
     let mut framed = insim::net::blocking_impl::Framed::new(Box::new(t.clone()), Codec::new(mode.clone()));
     let mut rets = vec![];
     for p in pkts {
@@ -50,7 +50,7 @@ fn run_blocking_writes(mode: &Mode, pkts: &[Packet], policy: &[WriteStep]) -> Re
 }
 
 fn run_tokio_writes(mode: &Mode, pkts: &[Packet], policy: &[WriteStep]) -> Result<(Vec<u8>, Vec<String>, Vec<Event>), String> {
-    let t = Transport::new(vec![], policy.to_vec());
+    let t = Transport::new(vec![], policy.to_vec()).vectored(policy.len() % 2 == 1);
     let rt = tokio_runtime();
     let t2 = t.clone();
     let mode = mode.clone();
